@@ -127,6 +127,12 @@ pub fn generate(seed: u64, idx: u64) -> Scenario {
     let mut rng = Rng::derive(seed.wrapping_mul(0x9E37_79B9).wrapping_add(idx), "c20");
     let mut s = Session::new();
     let diag = rng.chance(650);
+    if rng.chance(500) {
+        let (first, stride) = pick_id_scheme(&mut rng);
+        s.id_scheme(first, stride);
+    } else {
+        s.id_scheme(1 + rng.below(3) as i32, 1);
+    }
     s.handshake(diag);
     let uris = uri_pool(&mut rng);
     let mut counter = 0u32;
@@ -569,6 +575,8 @@ pub fn judge(sc: &Scenario) -> Judgement {
         for (_, id, method, uri, line, character, text) in chosen {
             let Some(got) = answers.iter().find(|r| r.0 == id as i64) else { continue };
             let mut fs = crate::h::session::Session::new();
+            // the handshake must not use the id of the request that is being compared
+            fs.id_scheme(id ^ 0x4000_0000, 1);
             fs.handshake(false);
             if let Some(t) = &text {
                 fs.open(&uri, t);
